@@ -7,6 +7,7 @@ import common as C
 import srcfacts
 
 
+LEANCHECKER = {"ran": False, "ok": None}
 ALLOWED_AXIOMS = {"propext", "Classical.choice", "Quot.sound"}
 FORBIDDEN = re.compile(r"\b(sorry|admit|native_decide|bv_decide|implemented_by)\b|^axiom |unsafe |maxHeartbeats 0", re.M)
 
@@ -103,6 +104,13 @@ def main():
     else:
         discharged, ap = audit(prop, theorems)
         proof_problems += ap
+        if tier == "thorough" and not replay:
+            # independent re-check of the compiled proofs of this property's module by the toolchain's leanchecker
+            rc, out = C.sh(["lake", "env", "leanchecker", f"Pakhi.Props.{prop}"], cwd=C.LEAN_DIR, timeout=1800)
+            LEANCHECKER["ran"] = True
+            LEANCHECKER["ok"] = (rc == 0)
+            if rc != 0:
+                proof_problems.append("leanchecker rejects Pakhi.Props." + prop + ": " + out[-600:])
 
     # 3. harness
     h_ok, h_log = C.build_harness()
@@ -204,6 +212,7 @@ def main():
         "known_findings_reported": [k["id"] for k in known],
         # the Lean structured semantics (Spec/Sem.lean) run by the model driver on every program `unflatten` recognises
         "structured_semantics": dict(C.SPEC_STATS),
+        "leanchecker": dict(LEANCHECKER),
     }
     C.write_evidence(prop, tier, seed, cov, time.time() - t0, n_viol, getattr(mod, "ASSUMPTIONS", []))
     print(f"{prop} {tier}: {len(cases)} cases, {cov['evaluations']} requests, theorems {len(discharged)}/{len(theorems)}, "
